@@ -8,6 +8,8 @@ THEOREMS = ['AiutiVerif.Buffer.C07_barrier', 'AiutiVerif.Buffer.C07_barrier_pref
             'AiutiVerif.Buffer.C07_blocked_waiter_covered', 'AiutiVerif.Buffer.C07_unfinished_exact',
             'AiutiVerif.Buffer.C07_wait_always_returns', 'AiutiVerif.Buffer.C07_wait_always_returns_prefix',
             'AiutiVerif.Buffer.C07_open_foreign_clear_blocks', 'AiutiVerif.Buffer.atRest_iff',
+            'AiutiVerif.Buffer.C07_C03_left_alone_everything_completes', 'AiutiVerif.Buffer.C07_runProgram_is_ticks',
+            'AiutiVerif.Buffer.ticks_reach_rest',
             'AiutiVerif.Buffer.C07_shutdown_partial','AiutiVerif.Buffer.C07_counterexample_shutdown_timer_armed','AiutiVerif.Buffer.C07_counterexample_shutdown_function_running','AiutiVerif.Buffer.C07_counterexample_shutdown_loading_captured']
 ASSUMPTIONS = list(_buffer.ASSUMPTIONS_COMMON)
 RULE = ('timed programs of submissions interleaved with wait(cancel=True/False) at grid instants, with empty / failing / slow producers and failing function invocations, several concurrent waiters; plus asyncio.run-style shutdown at instants spread over each program (idle, loading, timer armed, loading a captured producer, function running); every program runs on the real BufferAsyncCalls under a virtual clock and on the Lean machine, '
